@@ -11,6 +11,7 @@ import (
 	"fmt"
 	"io/fs"
 	"log/slog"
+	"math"
 	"net/http"
 	"net/url"
 	"path"
@@ -343,7 +344,9 @@ func writeSegment(ctx context.Context, w http.ResponseWriter, log *slog.Logger, 
 			return code, nil
 		}
 	}
-	if cfg.AvailabilityTimeCompleteFlag {
+	// With an infinite availabilityTimeOffset every segment is available at once, also segments far in the future.
+	// Pacing the chunks of such a segment would keep the request sleeping until its real time comes.
+	if cfg.AvailabilityTimeCompleteFlag || math.IsInf(cfg.getAvailabilityTimeOffsetS(), +1) {
 		return 0, writeLiveSegment(log, w, cfg, drmCfg, vodFS, a, segmentPart, nowMS, tt, isLast)
 	}
 	// Generated subtitle segments are small and written as a whole
